@@ -297,11 +297,111 @@ def m_unwrap(I, st, callee, argv, depth, t, dty):
 
 @model('core::result::Result::unwrap_or', 'core::option::Option::unwrap_or')
 def m_unwrap_or(I, st, callee, argv, depth, t, dty):
-    rv = res_variant(argv[0])
-    if rv:
-        yield st, (rv[1] if rv[0] in ('Some', 'Ok') else argv[1])
+    is_opt = 'option' in callee_key(callee)
+    ok, err = ('Some', 'None') if is_opt else ('Ok', 'Err')
+    for s2, name, payload in I.fork_result(st, argv[0], ok, err):
+        yield s2, (payload if name == ok else argv[1])
+
+
+@model('core::option::Option::unwrap_or_default', 'core::result::Result::unwrap_or_default')
+def m_unwrap_or_default(I, st, callee, argv, depth, t, dty):
+    is_opt = 'option' in callee_key(callee)
+    ok, err = ('Some', 'None') if is_opt else ('Ok', 'Err')
+    for s2, name, payload in I.fork_result(st, argv[0], ok, err):
+        if name == ok:
+            yield s2, payload
+        else:
+            n = ty_bytes_len(dty)
+            yield s2, (('zero', n) if n is not None else (Bytes(b'') if (dty or '').startswith('&[u8') else App('Default', Sym(dty or '?'))))
+
+
+@model('core::option::Option::map_or')
+def m_opt_map_or(I, st, callee, argv, depth, t, dty):
+    for s2, name, payload in I.fork_result(st, argv[0], 'Some', 'None'):
+        if name == 'None':
+            yield s2, argv[1]
+        else:
+            yield from I.apply_callable(s2, argv[2], [payload], depth, t)
+
+
+@model('core::option::Option::map_or_else')
+def m_opt_map_or_else(I, st, callee, argv, depth, t, dty):
+    for s2, name, payload in I.fork_result(st, argv[0], 'Some', 'None'):
+        if name == 'None':
+            yield from I.apply_callable(s2, argv[1], [], depth, t)
+        else:
+            yield from I.apply_callable(s2, argv[2], [payload], depth, t)
+
+
+@model('core::result::Result::map_or_else')
+def m_res_map_or_else(I, st, callee, argv, depth, t, dty):
+    for s2, name, payload in I.fork_result(st, argv[0]):
+        if name == 'Err':
+            yield from I.apply_callable(s2, argv[1], [payload], depth, t)
+        else:
+            yield from I.apply_callable(s2, argv[2], [payload], depth, t)
+
+
+@model('core::result::Result::map_or')
+def m_res_map_or(I, st, callee, argv, depth, t, dty):
+    for s2, name, payload in I.fork_result(st, argv[0]):
+        if name == 'Err':
+            yield s2, argv[1]
+        else:
+            yield from I.apply_callable(s2, argv[2], [payload], depth, t)
+
+
+@model('core::result::Result::or_else')
+def m_res_or_else(I, st, callee, argv, depth, t, dty):
+    for s2, name, payload in I.fork_result(st, argv[0]):
+        if name == 'Ok':
+            yield s2, Ok(payload)
+        else:
+            yield from I.apply_callable(s2, argv[1], [payload], depth, t)
+
+
+@model('core::option::Option::ok_or_else')
+def m_ok_or_else2(I, st, callee, argv, depth, t, dty):
+    for s2, name, payload in I.fork_result(st, argv[0], 'Some', 'None'):
+        if name == 'Some':
+            yield s2, Ok(payload)
+        else:
+            for s3, e in I.apply_callable(s2, argv[1], [], depth, t):
+                yield s3, Err(e)
+
+
+@model('core::iter::traits::iterator::Iterator::fold')
+def m_fold(I, st, callee, argv, depth, t, dty):
+    items = as_list(st, argv[0])
+    if items is None:
+        st.ev('LOOPSUM', 'fold over an opaque iterator', span(t))
+        I.notes.append('opaque fold at ' + span(t))
+        yield st, App('fold', freeze(st, argv[0]), freeze(st, argv[1]))
         return
-    yield st, App('unwrap_or', freeze(st, argv[0]), bytes_of(st, argv[1]))
+    def step(s, acc, rest):
+        if not rest:
+            yield s, acc
+            return
+        for s2, acc2 in I.apply_callable(s, argv[2], [acc, rest[0]], depth, t):
+            yield from step(s2, acc2, rest[1:])
+    yield from step(st, argv[1], items)
+
+
+@model('core::iter::traits::iterator::Iterator::for_each')
+def m_for_each(I, st, callee, argv, depth, t, dty):
+    items = as_list(st, argv[0])
+    if items is None:
+        st.ev('LOOPSUM', 'for_each over an opaque iterator', span(t))
+        I.notes.append('opaque for_each at ' + span(t))
+        yield st, UNIT
+        return
+    def step(s, rest):
+        if not rest:
+            yield s, UNIT
+            return
+        for s2, _ in I.apply_callable(s, argv[1], [rest[0]], depth, t):
+            yield from step(s2, rest[1:])
+    yield from step(st, items)
 
 
 @model('core::option::Option::map')
